@@ -109,7 +109,11 @@ def get_megacomplex_issues(
 
     if value is not None:
         labels = [v if isinstance(v, str) else v.label for v in value]
-        megacomplexes = [model.megacomplex[label] for label in labels]
+        # Undefined labels are reported as missing model items by ``get_item_model_issues``,
+        # they must not raise a ``KeyError`` here.
+        megacomplexes = [
+            model.megacomplex[label] for label in labels if label in model.megacomplex
+        ]
         for megacomplex in megacomplexes:
             megacomplex_type = megacomplex.__class__
             if is_exclusive(megacomplex_type) and len(megacomplexes) > 1:
